@@ -19,6 +19,9 @@ namespace engine
 {
 class Position
 {
+#ifdef CHESSPLUSPLUS_VERIF
+    friend struct VerifAccess;  // verification replay: load a counterexample state
+#endif
   public:
     static const std::string STARTPOS_FEN;
     static const std::regex SAN_REGEX;
